@@ -303,6 +303,11 @@ Proof.
     + reflexivity.
     + unfold strict_ss. apply inv_set_ss. exact H.
     + eapply sinv_score; [|exact Hn]. reflexivity.
+  - (* LsCkptBusy *)
+    destruct (pc data s) as [| | | | |m0 ? ?| | | | | | | | | ]; try discriminate.
+    destruct m0; try discriminate. destruct (ls_mark data s); [discriminate|].
+    match type of E with (if ?c then _ else _) = _ => destruct c; [|discriminate] end.
+    inversion E; subst. apply Same. reflexivity.
   - (* LsFail *)
     destruct (in_call (pc data s) && opened data s); [|discriminate]. inversion E; subst.
     apply Same. unfold fail_st.
